@@ -270,6 +270,66 @@ func init() {
 		ConformanceQuick: 48, ConformanceThorough: 512,
 	})
 	props = append(props, &PropDef{
+		ID: "C06", Title: "Finalize resolves every label reference to the right target or reports an error", Level: "model_checking",
+		Patterns: []string{"verif/harness/c06"}, PermuteMaps: true,
+		Jobs:             c06Jobs,
+		Bounds:           []string{"programs of at most 7 emitter calls from the alphabet {Label L0/L1, relative branch to L0/L1 (all 7 branch methods), JMP_abs L0/L1, NOP, data block of 1,2,3,123..127 symbolic bytes}: every template in c06Jobs (forward/backward/multiple/missing/duplicate references, distances -130..+130 around both limits)", "base unset or any bank-contained 24-bit base (symbolic); data contents symbolic; every iteration order of the two label maps (<=3 entries) explored", "at most 2 labels and 3 references per label"},
+		Outside:          []string{"more than 2 labels / 3 references per label (the resolution loops repeat the same body - argued, not checked)", "the text of out-of-range error messages (contains symbolic addresses); only the failure itself is checked there"},
+		Explanation:      "the harness keeps its own books of reference and label positions while driving the public API, then compares Finalize's verdict and every byte of the result with them",
+		ConformanceQuick: 48, ConformanceThorough: 400,
+	})
+	props = append(props, &PropDef{
+		ID: "C07", Title: "Emitter-accepted code is decoded by the CPU at the same instruction boundaries", Level: "model_checking",
+		Solver: "z3-new", Fallbacks: []string{"cvc5"}, TimeoutQuickMs: 20000,
+		Patterns: []string{"verif/harness/asmgen7"}, Overlay: asmOverlay, NativeOverlay: asmNativeOverlay, PreCheck: asmUnclassified,
+		Jobs: func(tier string) []sym.Job {
+			var js []sym.Job
+			for _, m := range asmMethods() {
+				if m.Kind != "instr" || m.Transfer {
+					continue
+				}
+				for cpu := 0; cpu < 2; cpu++ {
+					js = append(js, sym.Job{ID: fmt.Sprintf("c07/%s/%s", cpuNames[cpu], m.Name), Pkg: "verif/harness/asmgen7", Func: "C07_" + m.Name, Args: []int64{int64(cpu)}})
+				}
+			}
+			return js
+		},
+		Bounds:           []string{"inductive step: one emitter call (every straight-line instruction method, operands symbolic, tracked flags symbolic, any bank-contained base) followed by one CPU Step from a state whose K:PC equals the program counter the emitter reported and whose M/X equal the tracked widths; everything else in the CPU symbolic", "invariant carried along a program: Emitter.PC() == CPU K:PC and tracked (m,x) == CPU (M,X); REP/SEP with symbolic masks are ordinary steps", "conditional branches are run with the deciding flag set so that they are not taken (the statement excludes taken transfers)"},
+		Outside:          []string{"JMP/JML/JSR/JSL/RTS/RTL/RTI/BRA/PLP (taken control transfers and flag restores: excluded by the statement)", "label-reference forms (same opcodes as the immediate branch forms; operands decided in C06)", "an AssumeREP/AssumeSEP that contradicts the CPU (a false statement by the caller)"},
+		Explanation:      "emitted bytes are copied into CPU memory at the emitter's base; after one real Step the CPU's next fetch address and width flags must equal the emitter's PC and tracked widths; conversely each immediate-operand method must be refused exactly on a width mismatch",
+		ConformanceQuick: 48, ConformanceThorough: 512,
+	})
+	props = append(props, &PropDef{
+		ID: "C19", Title: "Emission is all-or-nothing at capacity; dry-run emitters track addresses equally", Level: "model_checking",
+		Patterns: []string{"verif/harness/asmgen", "verif/harness/c19"}, Overlay: asmOverlay, NativeOverlay: asmNativeOverlay, PreCheck: asmUnclassified,
+		Jobs: func(tier string) []sym.Job {
+			var js []sym.Job
+			maxCap := 4
+			if tier == "thorough" {
+				maxCap = 6
+			}
+			for _, m := range asmMethods() {
+				if m.Kind != "instr" && m.Kind != "label" {
+					continue
+				}
+				for cp := 0; cp <= maxCap; cp++ {
+					for pre := 0; pre <= cp; pre++ {
+						if tier != "thorough" && cp-pre > m.Len { // quick: capacities from 'more than enough by one' down to 0 short
+							continue
+						}
+						js = append(js, sym.Job{ID: fmt.Sprintf("c19/%s/cap%d/prefix%d", m.Name, cp, pre), Pkg: "verif/harness/asmgen", Func: "C19_" + m.Name, Args: []int64{int64(cp), int64(pre)}})
+					}
+				}
+			}
+			js = append(js, c19DataJobs(tier)...)
+			return js
+		},
+		Bounds:           []string{"one call of each instruction method (operands, tracked flags, base symbolic; listing on/off) on a buffer of capacity 0..4 (thorough 0..6) already holding 0..capacity bytes and one label", "data blocks of length 0-5, 16, 17 at capacities from 3 short to exact", "dry-run twin: the same calls on an emitter without a buffer; call sequences of up to 3 (thorough 4) calls from a fixed alphabet"},
+		Outside:          []string{"capacities above the listed ones (the capacity test is a single comparison that does not depend on magnitude - argued, not checked)"},
+		Explanation:      "refusal is observed with vp.Try around the real method; after a refusal Bytes/Len/PC/labels must equal their values before the call",
+		ConformanceQuick: 48, ConformanceThorough: 512,
+	})
+	props = append(props, &PropDef{
 		ID: "C04", Title: "PakAddressToBus is a right inverse of BusAddressToPak", Level: "model_checking",
 		Patterns: []string{"verif/harness/c04"},
 		Jobs: func(tier string) []sym.Job {
@@ -345,6 +405,126 @@ func c12RunUntilJobs(tier string) []sym.Job {
 	var js []sym.Job
 	for p := 0; p < n; p++ {
 		js = append(js, job("c12", "RunUntil", fmt.Sprintf("c12/run-until/k%d/prog%04o/budget<=%d", k, p, budget), int64(p), int64(k), int64(budget)))
+	}
+	return js
+}
+
+func c19DataJobs(tier string) []sym.Job {
+	var js []sym.Job
+	for _, n := range []int{0, 1, 2, 3, 4, 5, 16, 17} {
+		for short := 0; short <= 3; short++ {
+			for _, pre := range []int{0, 2} {
+				cp := pre + n - short
+				if cp < pre {
+					continue
+				}
+				js = append(js, job("c19", "Data", fmt.Sprintf("c19/EmitBytes/len%d/prefix%d/short%d", n, pre, short), int64(n), int64(cp), int64(pre)))
+			}
+		}
+	}
+	k := 3
+	if tier == "thorough" {
+		k = 4
+	}
+	n := 1
+	for i := 0; i < k; i++ {
+		n *= 6
+	}
+	for p := 0; p < n; p++ {
+		js = append(js, job("c19", "DrySequence", fmt.Sprintf("c19/dry-sequence/k%d/%0*d", k, k, toBase6(p, k)), int64(p), int64(k)))
+	}
+	return js
+}
+
+func toBase6(p, k int) int {
+	r, mul := 0, 1
+	for i := 0; i < k; i++ {
+		r += (p % 6) * mul
+		mul *= 10
+		p /= 6
+	}
+	return r
+}
+
+// c06 op codes
+const (
+	oL0, oL1, oB0, oB1, oJ0, oJ1, oN = 1, 2, 3, 4, 5, 6, 7
+)
+
+func c06Pad(k int) []int { // ops emitting exactly k pad bytes (k <= 130)
+	sizes := []int{1, 2, 3, 123, 124, 125, 126, 127}
+	var ops []int
+	for k > 0 {
+		best := -1
+		for i, s := range sizes {
+			if s <= k {
+				best = i
+			}
+		}
+		ops = append(ops, 8+best)
+		k -= sizes[best]
+	}
+	return ops
+}
+
+func c06Jobs(tier string) []sym.Job {
+	var js []sym.Job
+	seen := map[string]bool{}
+	add := func(name string, br, base int, ops ...int) {
+		if len(ops) > 15 {
+			return
+		}
+		var prog int64
+		for i := len(ops) - 1; i >= 0; i-- {
+			prog = prog<<4 | int64(ops[i])
+		}
+		id := fmt.Sprintf("c06/%s/br%d/base%d", name, br, base)
+		if seen[id] {
+			return
+		}
+		seen[id] = true
+		js = append(js, job("c06", "Program", id, prog, int64(len(ops)), int64(br), int64(base)))
+	}
+	cat := func(parts ...[]int) []int {
+		var out []int
+		for _, p := range parts {
+			out = append(out, p...)
+		}
+		return out
+	}
+	dists := []int{0, 1, 2, 125, 126, 127, 128, 129}
+	if tier == "thorough" {
+		dists = []int{0, 1, 2, 3, 64, 124, 125, 126, 127, 128, 129, 130}
+	}
+	brs := []int{0, 6}
+	if tier == "thorough" {
+		brs = []int{0, 1, 2, 3, 4, 5, 6}
+	}
+	for bi, br := range brs {
+		for _, base := range []int{0, 1} {
+			for _, k := range dists {
+				// backward: L0 pad(k) B0   (distance -(k+2))   forward: B0 pad(k) L0 (distance +k)
+				add(fmt.Sprintf("backward/pad%d", k), br, base, cat([]int{oN, oL0}, c06Pad(k), []int{oB0, oN})...)
+				add(fmt.Sprintf("forward/pad%d", k), br, base, cat([]int{oN, oB0}, c06Pad(k), []int{oL0, oN})...)
+				if bi == 0 || tier == "thorough" {
+					add(fmt.Sprintf("two-forward/pad%d", k), br, base, cat([]int{oB0, oN, oB0}, c06Pad(k), []int{oL0})...)
+					add(fmt.Sprintf("two-backward/pad%d", k), br, base, cat([]int{oL0}, c06Pad(k), []int{oB0, oB0})...)
+					add(fmt.Sprintf("jmp-forward+branch/pad%d", k), br, base, cat([]int{oJ0, oB0}, c06Pad(k), []int{oL0})...)
+					add(fmt.Sprintf("jmp-backward+branch/pad%d", k), br, base, cat([]int{oL0}, c06Pad(k), []int{oJ0, oB0})...)
+					add(fmt.Sprintf("two-labels/pad%d", k), br, base, cat([]int{oB0, oB1, oJ1}, c06Pad(k), []int{oL0, oN, oL1, oJ0})...)
+					add(fmt.Sprintf("one-missing-one-far/pad%d", k), br, base, cat([]int{oB1, oB0}, c06Pad(k), []int{oL0})...)
+				}
+			}
+			add("missing-label", br, base, oN, oB0, oN)
+			add("missing-wide-label", br, base, oJ1, oN)
+			add("one-of-two-missing", br, base, oB0, oB1, oJ0, oL0)
+			add("both-missing", br, base, oB0, oJ1)
+			add("duplicate-label", br, base, oL0, oN, oL0, oB0)
+			add("duplicate-after-reference", br, base, oB1, oL1, oN, oL1)
+			add("no-references", br, base, oL0, oN, oL1)
+			add("three-references", br, base, oB0, oB0, oJ0, oL0, oB0)
+			add("empty", br, base)
+		}
 	}
 	return js
 }
